@@ -87,6 +87,16 @@ CLAIMS = {
   'design_ref': 'DESIGN.md section 3 C17',
   'note': 'which I/O call faults is abstracted (any callee may raise socket.error/TLSAbruptCloseError): that is the all-fault-points quantifier; known finding F24 (heartbeat response send failure deliberately swallowed) is carved out',
   'technique': M2T + '; AST writer/raise-site tasks'},
+ 'C11': {
+  'text': 'RSAKey.decrypt (implicit rejection) is proved total and deterministic and equal to the plainly written specification of draft-irtf-cfrg-rsa-guidance for every key size 11 <= k <= 8191 bytes and every ciphertext: None exactly for publicly invalid ciphertexts, the real message exactly when EM is a valid type-2 block, otherwise the synthetic message whose bytes and length depend only on (key hash, ciphertext, k); _dec_prf against its definition; no RNG call; RSAKeyExchange.processClientKeyExchange always returns 48 bytes, the decrypted value only if it is 48 bytes with an accepted version, else the fresh random, with no exception; server side: after processClientKeyExchange no alert depends on the premaster (TLS >= 1.0).',
+  'design_ref': 'DESIGN.md section 3 C11',
+  'note': 'raw private-key operation and HMAC uninterpreted; constant-time behaviour is not claimed; SSLv3 CertificateVerify path carved out of the uniformity obligation (stated in evidence)',
+  'technique': TECH + '; loop invariants for the 128-candidate selection and the byte scan'},
+ 'C10': {
+  'text': 'RSA PKCS#1 v1.5: verify returns True iff len(sig)==k, int(sig)<n and pub(sig) == 00 01 FF..FF 00 DigestInfo||hash for the given hash (no garbage, no alternative DigestInfo) for k >= |T|+11; EMSA-PSS encode/verify against every RFC 8017 9.1.2 step, MGF1, RSASSA-PSS sign/verify incl. modulus bit lengths 1 mod 8 (after fix e55c238), sign-then-verify round-trip lemmas; FFDH share validation (1 < Y < p-1, length, S not in {1,p-1}) and X25519/X448 length and all-zero checks. Partial: ECDSA/EdDSA/DSA arithmetic (external ecdsa package), CRT/blinding algebra, sign-then-verify dominance at the emission sites are not built.',
+  'design_ref': 'DESIGN.md section 3 C10',
+  'note': 'RsaPub(RsaPriv(m)) == m assumed for the round trips; known finding F30 (short PS accepted for keys below ~752 bits) carved out; PSS round trip proved for SHA-256 only',
+  'technique': TECH},
 }
 NOT_APPLICABLE = {
  'C07': 'interoperability with OpenSSL: no contract on /repo functions can speak about another implementation\'s behaviour; needs a second implementation executing (see DESIGN.md C07)',
